@@ -122,23 +122,20 @@ def bmp16RowDec (ms : Mask × Mask × Mask) : Nat → Bytes → List Rgb8
 structure RleSt where
   cur : Bytes                 -- stream
   pos : Nat                   -- stream_pos - offset (for the word padding of absolute runs)
-  buf : List Rgba8            -- row buffer, `dim.x` entries
+  buf : List Rgba8            -- row buffer
   x : Nat                     -- dst_it - buf.begin()
   y : Int
-  out : List (Int × List Rgba8)   -- rows copied to the view: (row index, pixels)
-  oob : Bool                  -- copy_row_if_needed read past the buffer
+  calls : List (Int × List Rgba8)   -- the calls of copy_row_if_needed(buf, view, y), most recent first: (y, buffer content)
+  over : Bool                 -- a pixel was stored past the end of the row buffer
 
 def setRun (buf : List Rgba8) (x : Nat) (px : List Rgba8) : List Rgba8 :=
   buf.take x ++ px ++ buf.drop (x + px.length)
 
-/-- copy_row_if_needed -/
-def rleCopyRow (tlx tly dx dy : Nat) (st : RleSt) : RleSt :=
-  if st.y ≥ tly ∧ st.y < dy then
-    { st with out := (st.y, sliceRow tlx dx st.buf) :: st.out, oob := st.oob || decide (tlx + dx > dx) }
-  else st
+/-- a call of copy_row_if_needed is recorded; what it copies is decided in `bmpReadRle` -/
+def rleCall (st : RleSt) : RleSt := { st with calls := (st.y, st.buf) :: st.calls }
 
-def rleLoop (rle4 : Bool) (pal : List Rgba8) (width : Nat) (tlx tly dx dy : Nat) (yinc yend : Int) :
-    Nat → RleSt → Option RleSt
+/-- the packet loop of read_palette_image_rle over a row buffer of `bw` pixels -/
+def rleLoop (bw : Nat) (rle4 : Bool) (pal : List Rgba8) (width : Nat) (yinc yend : Int) : Nat → RleSt → Option RleSt
   | 0, _ => none
   | fuel + 1, st =>
     match st.cur with
@@ -146,30 +143,30 @@ def rleLoop (rle4 : Bool) (pal : List Rgba8) (width : Nat) (tlx tly dx dy : Nat)
       let st := { st with cur := cur, pos := st.pos + 2 }
       if count ≠ 0 then
         -- encoded mode, clamped to the end of the row buffer
-        let n := min count.toNat (dx - st.x)
+        let n := min count.toNat (bw - st.x)
         let px := (List.range n).map fun i =>
           if rle4 then palAt pal (if i % 2 = 0 then second.toNat / 16 else second.toNat % 16) else palAt pal second.toNat
-        rleLoop rle4 pal width tlx tly dx dy yinc yend fuel { st with buf := setRun st.buf st.x px, x := st.x + n }
+        rleLoop bw rle4 pal width yinc yend fuel { st with buf := setRun st.buf st.x px, x := st.x + n }
       else if second = 0 then
-        let st := rleCopyRow tlx tly dx dy st
+        let st := rleCall st
         let y := st.y + yinc
-        if y = yend then some { st with y := y } else rleLoop rle4 pal width tlx tly dx dy yinc yend fuel { st with y := y, x := 0 }
-      else if second = 1 then some (rleCopyRow tlx tly dx dy st)
+        if y = yend then some { st with y := y } else rleLoop bw rle4 pal width yinc yend fuel { st with y := y, x := 0 }
+      else if second = 1 then some (rleCall st)
       else if second = 2 then
         match st.cur with
         | ddx :: ddy :: cur =>
           let dyv : Int := (ddy.toNat : Int) * yinc
           let st := { st with cur := cur, pos := st.pos + 2 }
-          let st := if dyv ≠ 0 then rleCopyRow tlx tly dx dy st else st
+          let st := if dyv ≠ 0 then rleCall st else st
           let x := st.x + ddx.toNat
           if x > width then none else
           let y := st.y + dyv
           if (if yinc > 0 then y > yend else y < yend) then none else
-          rleLoop rle4 pal width tlx tly dx dy yinc yend fuel { st with x := x, y := y }
+          rleLoop bw rle4 pal width yinc yend fuel { st with x := x, y := y }
         | _ => none
       else
         -- absolute mode: `count = second` clamped; only the clamped number of indices is consumed
-        let n := min second.toNat (dx - st.x)
+        let n := min second.toNat (bw - st.x)
         let nbytes := if rle4 then (n + 1) / 2 else n
         if st.cur.length < nbytes then none else
         let raw := st.cur.take nbytes
@@ -180,29 +177,39 @@ def rleLoop (rle4 : Bool) (pal : List Rgba8) (width : Nat) (tlx tly dx dy : Nat)
         let (cur, pos) := if pos % 2 = 1 then (cur.drop 1, pos + 1) else (cur, pos)
         -- rle4: a clamped odd count still stores the low nibble's pixel, one past the end of the buffer
         let over := rle4 && decide (n < second.toNat) && decide (n % 2 = 1)
-        rleLoop rle4 pal width tlx tly dx dy yinc yend fuel
-          { st with cur := cur, pos := pos, buf := setRun st.buf st.x (idx.map (palAt pal)), x := st.x + n, oob := st.oob || over }
+        rleLoop bw rle4 pal width yinc yend fuel
+          { st with cur := cur, pos := pos, buf := setRun st.buf st.x (idx.map (palAt pal)), x := st.x + n, over := st.over || over }
     | _ => none
 
-/-- the rows of the destination view after read_palette_image_rle; rows never copied keep the image's initial value
-    (a freshly recreated image: zero) -/
-def bmpReadRle (init : Rgba8) (file : Bytes) (info : BmpInfo) (pal : List Rgba8) (s : Settings) : Res Rgba8 :=
+/-- copy_row_if_needed(buf, view, y): which region row a call with this `y` writes (`none`: the call copies nothing).
+    As written (`fixed = false`): `top_left.y ≤ y < dim.y`, destination row `y`.
+    With proposed_fixes/C13-bmp-rle-subrectangle.diff (`fixed = true`): `y` is an image row, region row `y - top_left.y`. -/
+def rleRegionRow (fixed : Bool) (tly dy : Nat) (y : Int) : Option Int :=
+  if fixed then (if 0 ≤ y - tly ∧ y - tly < dy then some (y - tly) else none)
+  else (if y ≥ tly ∧ y < dy then some y else none)
+
+/-- read_palette_image_rle: the rows of the destination view; rows no call writes keep what the destination held before (`init`).
+    `fixed = false` (the code as written): the row buffer has `dim.x` pixels and `dim.y` rows are decoded;
+    `fixed = true`: whole image rows, every row.  Copying `[top_left.x, top_left.x + dim.x)` out of a shorter buffer is an overrun. -/
+def bmpReadRle (fixed : Bool) (init : Rgba8) (file : Bytes) (info : BmpInfo) (pal : List Rgba8) (s : Settings) : Res Rgba8 :=
   let w := info.width.toNat
   let h := info.height.toNat
   let dx := s.dimX w
   let dy := s.dimY h
+  let bw := if fixed then w else dx          -- pixels in the row buffer
+  let nrows := if fixed then h else dy       -- rows that are decoded
   let bottomUp := info.height > 0
-  let st0 : RleSt := { cur := file.drop info.offset, pos := 0, buf := List.replicate dx ⟨0, 0, 0, 0⟩, x := 0,
-                       y := if bottomUp then (dy : Int) - 1 else 0, out := [], oob := false }
-  match rleLoop (info.compression = 2) pal w s.tlx s.tly dx dy (if bottomUp then -1 else 1) (if bottomUp then -1 else dy)
-          (file.length + h + 2) st0 with
+  let st0 : RleSt := { cur := file.drop info.offset, pos := 0, buf := List.replicate bw ⟨0, 0, 0, 0⟩, x := 0,
+                       y := if bottomUp then (nrows : Int) - 1 else 0, calls := [], over := false }
+  match rleLoop bw (info.compression = 2) pal w (if bottomUp then -1 else 1) (if bottomUp then -1 else nrows) (file.length + h + 2) st0 with
   | none => .err
   | some st =>
-    if st.oob then .ub else
+    let copying := st.calls.filter fun e => (rleRegionRow fixed s.tly dy e.1).isSome
+    if st.over || (!copying.isEmpty && decide (s.tlx + dx > bw)) then .ub else
     .ok { w := dx, h := dy,
-          rows := (List.range dy).map fun (y : Nat) =>
-            match st.out.find? (fun e => e.1 = (y : Int)) with
-            | some e => e.2
+          rows := (List.range dy).map fun (r : Nat) =>
+            match st.calls.find? (fun e => rleRegionRow fixed s.tly dy e.1 = some (r : Int)) with
+            | some e => sliceRow s.tlx dx e.2
             | none => List.replicate dx init }
 
 /-- which destination pixel type read_image accepts for a BMP file (is_allowed, read_and_no_convert):
@@ -234,7 +241,7 @@ def bmpPath (info : BmpInfo) : BmpPath :=
 
 /-- every BMP variant, decoded to rgba8 pixels (alpha: the file's for 32 bit, 0 for palette entries, 255 otherwise).
     `wantBits` = bits per pixel of the destination type (24 rgb8 / 32 rgba8); `none` = converting read (is_allowed = true) -/
-def bmpRead (init : Rgba8) (file : Bytes) (s : Settings) (wantBits : Option Nat) : Res Rgba8 :=
+def bmpRead (init : Rgba8) (file : Bytes) (s : Settings) (wantBits : Option Nat) (rleFixed : Bool := false) : Res Rgba8 :=
   match bmpReadHeader file with
   | none => .err
   | some (info, cur) =>
@@ -253,7 +260,7 @@ def bmpRead (init : Rgba8) (file : Bytes) (s : Settings) (wantBits : Option Nat)
       | .rle =>
         (match bmpReadPalette info cur with
          | none => .err
-         | some (pal, _) => bmpReadRle init file info pal s)
+         | some (pal, _) => bmpReadRle rleFixed init file info pal s)
       | .hi16 =>
         (match bmpMasks info cur with
          | none => .err
